@@ -13,6 +13,7 @@ CFG = dict(
         "bw_vertices_are_inputs", "bw_indices_lt", "fanTri_not_ccw", "loop_inv", "bw_not_ccw",
         "bw_cw_of_not_collinear", "bw_all_indices_lt", "superTriangle_cw", "pointFn_input", "pointFn_super",
         "bowyerWatson_spec", "bowyerWatson_not_ccw", "bw_order_independent_partial",
+        "superTriangle_contains_box", "superTriangle_contains",
     ],
     streams=[dict(name="c20", n=dict(quick=240, thorough=6000))],
     trusted=T_COMMON + [
